@@ -28,6 +28,7 @@ META.update({
     "C02": _m("Recorded executions of random container filters are accepted only if every result equals the L1 semantics (GetPath, row-major Flatten, element-wise logic with truncation, any/all).", "DESIGN.md section 6 C02"),
     "C03": _m("Recorded executions of random calls are accepted only if results equal EvalCall/FnSem: arguments in order, defaults, typed absence, per-element application with dropped absent results, concat.", "DESIGN.md section 6 C03"),
     "C04": _m("Parse verdicts of well-typed and mutated programs must equal the L2 parser/type-checker model; accepted programs must execute without panic.", "DESIGN.md section 6 C04"),
+    "C05": _m("Exploration judged by the specification: every generated input is parsed in a child process and the trace specification admits only the outcomes AST / well-formed error (line, echoed line, column range, caret layout checked against the input); inside the modelled token alphabet the exact verdict is decided by the L2 parser model.", "DESIGN.md section 6 C05", "Input generation for arbitrary Unicode is by harness generators (not model-derived); sizes up to 1e5 elements; the child runs with the default 8 MiB main stack and a 2 MiB thread."),
     "C06": _m("A character-level TLA+ definition of every literal form decides, for every text over small alphabets up to the bound and for random renderings/corruptions, whether the engine must accept it and which value it denotes (integers on 16-bit limbs).", "DESIGN.md section 6 C06"),
     "C07": _m("Alias/white-space variants must yield equal AST, identical JSON text and hash; JSON must equal the canonical AstJson; structurally different partners must serialize differently.", "DESIGN.md section 6 C07"),
     "C08": _m("All bounded operation histories are enumerated by TLC on the abstract context machine (TypeOK and failed-set-is-a-no-op checked in-model) and replayed on real contexts; long random histories are validated as traces with the after-state compared at every step.", "DESIGN.md section 6 C08"),
